@@ -184,6 +184,18 @@ pub(super) mod udp {
 
         fn decode(&mut self, src: &mut BytesMut) -> Result<Option<Self::Item>, Self::Error> {
             if !src.is_empty() {
+                // address | length | CRLF | payload: wait until the whole frame is buffered
+                if src.remaining() < 2 {
+                    return Ok(None);
+                }
+                let addr_len = address::try_decode_at(src, 0)?;
+                if src.remaining() < addr_len + 2 + trojan::CR_LF.len() {
+                    return Ok(None);
+                }
+                let len = u16::from_be_bytes([src[addr_len], src[addr_len + 1]]) as usize;
+                if src.remaining() < addr_len + 2 + trojan::CR_LF.len() + len {
+                    return Ok(None);
+                }
                 let addr = address::decode(src)?;
                 let len = src.get_u16();
                 src.advance(trojan::CR_LF.len());
